@@ -982,7 +982,57 @@ def sc_dup_stream_collected(r):
 """, closes=closes, k=r.randint(1, 8), k2=r.randint(0, 4), payload="x" * r.randint(1, 40), n=1)]
 
 
+def sc_operator_methods(r):
+    """arithmetic / bitwise operators dispatched to methods that are Janet functions: the method runs on the
+    caller's fiber and can move its stack while the opcode still holds a pointer into it (finding 34,
+    repaired in /repo by b57e125)."""
+    ops = r.sample(["+", "-", "*", "/", "%", "mod", "div", "band", "bor", "bxor", "blshift", "brshift"], r.randint(2, 5))
+    depth = r.choice([10, 60, 300, 1500])
+    methods = " ".join(":%s (fn [a b] (deep $depth) (churn 1) (mk (string \"%s\" (if (table? b) :t b))))" % (o if o not in ("band", "bor", "bxor", "blshift", "brshift") else {"band": "&", "bor": "|", "bxor": "^", "blshift": "<<", "brshift": ">>"}[o], o) for o in ops)
+    rmethods = " ".join(":r%s (fn [a b] (deep $depth) (mk (string \"r%s\")))" % (o, o) for o in ops if o in ("+", "-", "*", "/", "%", "mod", "div"))
+    uses = "\n".join("(emit \"op\" (get (%s obj %s) :tag))" % (o, r.choice([str(r.randint(1, 9)), "nv", "obj"])) for o in ops)
+    ruses = "\n".join("(emit \"rop\" (get (%s %d obj) :tag))" % (o, r.randint(1, 9)) for o in ops if o in ("+", "-", "*", "/", "%", "mod", "div"))
+    return [T(r"""
+(defn deep [n] (if (= n 0) 0 (+ 1 (deep (- n 1)))))
+(var proto nil)
+(defn mk [tag] (table/setproto @{:tag tag :v (mkval (length tag))} proto))
+(set proto @{$methods $rmethods :~ (fn [a] (deep $depth) (mk "bnot"))})
+(defn run [obj]
+  (def l0 (mkstr 1)) (def l1 (mkval 2)) (def nv (length l0))
+$uses
+$ruses
+  (emit "unary" (get (bnot obj) :tag))
+  (emit "locals" l0 l1))
+(def f (fiber/new (fn [] (run (mk "start"))) :e))
+(emit "res" (resume f) (fiber/status f))
+""".replace("$methods", methods).replace("$rmethods", rmethods).replace("$uses", uses).replace("$ruses", ruses), depth=depth)]
+
+
+def sc_tailcall_optargs(r):
+    """tail call into a variadic function with many optional parameters from a frame with many locals, on a
+    fiber whose stack is nearly full: padding the missing parameters grows the stack inside
+    janet_fiber_funcframe_tail (finding 35, repaired in /repo by ee98316)."""
+    nopt = r.choice([20, 60, 120, 200])
+    lo = r.randint(1, 150)
+    return [T(r"""
+(def params (seq [i :range [0 $nopt]] (symbol "p" i)))
+(def B (eval ~(fn B [&opt ,;params & rest] [(length rest) p0 (get rest 0)])))
+(def Bk (eval ~(fn Bk [&opt ,;params &keys ks] [(length ks) p0])))
+(defn mkA [k callee nargs]
+  (def locals (seq [i :range [0 k]] ~(def ,(symbol "l" i) ,i)))
+  (eval ~(fn A [] ,;locals (,callee ,;(range nargs)))))
+(def out @[])
+(for k $lo (+ $lo $span)
+  (def A (mkA k (if (even? k) B Bk) (% k 3)))
+  (def f (fiber/new (fn [] (churn 1) (A)) :e))
+  (array/push out (resume f)))
+(emit "tailopt" (length out) (sim/hash (string/format "%j" out)))
+""", nopt=nopt, lo=lo, span=r.randint(8, 40))]
+
+
 SCENARIOS = {
+    "operator_methods": sc_operator_methods,
+    "tailcall_optargs": sc_tailcall_optargs,
     "dup_stream_collected": sc_dup_stream_collected,
     "env_dead_fiber": sc_env_dead_fiber,
     "env_suspended_fiber": sc_env_suspended_fiber,
